@@ -316,6 +316,34 @@ def _arrays_of_objects(U, m, args):
 
 
 # ---------------------------------------------------------------- object <-> flat dict
+def _empty_nested_objseqs(U, cname, v):
+    import copy
+    cs = {c["name"]: c for c in U["classes"]}
+
+    def fields(n):
+        c = cs[n]
+        return (fields(c["extends"]) if c["extends"] else []) + c["fields"]
+
+    def go(cn, obj, depth):
+        for fn, ft in fields(obj.get("$obj", cn)):
+            occ = ft.get("occ") or {}
+            multi = occ.get("max", 1) != 1
+            inner = ft["of"] if ft["k"] == "array" else ft
+            x = obj["f"].get(fn)
+            if (multi or ft["k"] == "array") and inner["k"] == "ref":
+                if depth >= 1 and occ.get("min", 0) == 0:
+                    obj["f"][fn] = []
+                elif x:
+                    for e in x:
+                        if e is not None:
+                            go(inner["n"], e, depth + 1)
+            elif ft["k"] == "ref" and x is not None:
+                go(ft["n"], x, depth + 1)
+    v = copy.deepcopy(v)
+    go(cname, v, 0)
+    return v
+
+
 def rt_cases(tier):
     @st.composite
     def one(draw):
@@ -331,6 +359,12 @@ def rt_cases(tier):
         vg = values.ValueGen(U, special_floats=False)
         vg.nil_unspellable = True
         v = draw(vg.single(t).filter(lambda v: _no_leafless_elements(U, t, v)))
+        if draw(st.integers(0, 2)) == 0:
+            # sequences of objects below the top level made EMPTY: the flat form has a marker
+            # for them ('path=empty'), they must come back as empty sequences
+            v2 = _empty_nested_objseqs(U, cname, v)
+            if v2 != v and _no_leafless_elements(U, t, v2):
+                v = v2
         names = set()
         for c in U["classes"]:
             names.update(f for f, _ in c["fields"])
@@ -397,7 +431,7 @@ def run_rt(case, rec):
         exp = ref_flat.prune(U, t, _strip_empty_text(U, t, v))
         r = values.value_eq(B, t, back, exp, path="o", ident=values.Ident(
             empty_seq_is_none=True, empty_bytes_is_none=True, empty_text_is_none=True,
-            empty_wrapped_is_none=True, leafless_obj_is_none=True))
+            empty_wrapped_is_none=True, leafless_obj_is_none=True, empty_objseq_kept=True))
         if exp is None and back is not None:
             r = None       # an object without leaves comes back as an empty instance
         if r:
